@@ -1,6 +1,7 @@
 CONSTANTS
   Kinds = {"plain", "ecs", "cd", "ecscd"}
   Borns = {"msg", "wire"}
+  Flags <- MCFlags
   MaxSteps = 6
   LoseMarker = FALSE
 INIT Init
